@@ -68,11 +68,38 @@ def check(an: Analysis) -> None:
     stream = prog.fn(STREAM)
     d = Deps(prog, stream)
     gens = [f for f in stream.nested if f.is_generator()]
+    binding: dict[str, ast.AST] = {}  # generator parameter -> expression passed by ctx.stream
+    if not gens:
+        # the wrapper may be a module-level (private) generator started through Context.run(G, ...)
+        for c in [c for c in stream.own_nodes() if isinstance(c, ast.Call)]:
+            cands = [a for a in c.args if isinstance(a, ast.Name)] + ([c.func] if isinstance(c.func, ast.Name) else [])
+            for a in cands:
+                q = prog.resolve_global(stream.module, a.id)
+                t = prog.functions.get(q or "")
+                if t is not None and t.is_generator() and t.module is stream.module and t not in gens:
+                    gens.append(t)
+                    passed = c.args[c.args.index(a) + 1 :] if a in c.args else list(c.args)
+                    params = [x.arg for x in t.node.args.posonlyargs + t.node.args.args]
+                    for pname, val in zip(params, passed):
+                        if not isinstance(val, ast.Starred):
+                            binding[pname] = val
     if len(gens) != 1:
-        raise AnalysisError(f"C11: ctx.stream is expected to define one wrapping generator, found {len(gens)}")
+        raise AnalysisError(f"C11: ctx.stream is expected to use one wrapping generator, found {len(gens)}")
     gen = gens[0]
     dg = Deps(prog, gen)
     g = an.cfg(gen)
+    nested_gen = gen.outer is stream
+
+    def gen_origins(e: ast.AST) -> frozenset[str]:
+        """origins of an expression of the generator, seen from ctx.stream (parameters mapped to what was passed)."""
+        oo = set(dg.origins(e))
+        out = set()
+        for o in oo:
+            if o.startswith("param:") and o[6:] in binding:
+                out |= set(d.origins(binding[o[6:]]))
+            else:
+                out.add(o)
+        return frozenset(out)
 
     # ------------------------------------------------------------------ C11.1 no yield under a ContextVar-setting scope
     ob = an.ob("C11.1", "K10", "no generator in src/haiway yields from inside a with/async with whose manager sets a ContextVar on enter while the generator object is driven by a foreign consumer (API_FACT 5)")
@@ -80,7 +107,7 @@ def check(an: Analysis) -> None:
     for f in all_gens:
         ob.inst(f, None, "generator function")
         for y, w in yields_under_contextvar_scope(an, f):
-            ob.fail(f, parent(y) if isinstance(parent(y), ast.Expr) else y, "between items the consumer runs with the stream's scope variables (state, metrics scope, task group) installed in *its* context, and keeps them after an early break until aclose", construct="yield <item> inside `async with <stream scope>`")
+            ob.fail(f, parent(y) if isinstance(parent(y), ast.Expr) else y, "between items the consumer runs with the stream's scope variables (state, metrics scope, task group) installed in *its* context, and keeps them after an early break until aclose", construct="yield <item> inside `async with <stream scope>`", at=(stream.qualname if f is gen else None))
     if not all_gens:
         raise AnalysisError("C11.1: no generator function found in the package (confirmed: 1)")
 
@@ -90,7 +117,7 @@ def check(an: Analysis) -> None:
     for c in runs:
         ob.inst(stream, c)
         a = c.args[0] if c.args else None
-        target = next((nf for nf in stream.nested if isinstance(a, ast.Name) and nf.name == a.id), None)
+        target = next((nf for nf in [*stream.nested, *gens] if isinstance(a, ast.Name) and nf.name == a.id), None)
         if target is not None and (target.is_generator() or target.is_async):
             ob.fail(stream, c, "Context.run on a generator/coroutine function executes none of its body in the snapshot: the stream body observes the state current where it is *consumed*, not where it was created", construct="<snapshot>.run(<generator function>)")
     driven = [c for c in stream.all_nodes() if isinstance(c, ast.Call) and isinstance(c.func, ast.Attribute) and c.func.attr == "create_task" and any(k.arg == "context" for k in c.keywords)]
@@ -107,7 +134,8 @@ def check(an: Analysis) -> None:
     for lp in loops:
         ob.inst(gen, lp)
         it = unwrap(lp.iter)
-        if not (isinstance(it, ast.Call) and isinstance(it.func, ast.Name) and dg.origins(it.func) == {f"param:{src_param}"} and forwards_varargs(it, va, kwa)):
+        gva, gkwa = (va, kwa) if nested_gen else vararg_names(gen)
+        if not (isinstance(it, ast.Call) and isinstance(it.func, ast.Name) and gen_origins(it.func) == {f"param:{src_param}"} and forwards_varargs(it, gva, gkwa)):
             ob.fail(gen, lp, "the wrapper does not iterate source(*args, **kwargs)")
         ys = [y for y in gen.own_nodes() if isinstance(y, ast.Yield)]
         inside = [y for y in ys if within(y, lp)]
@@ -145,7 +173,7 @@ def check(an: Analysis) -> None:
             if not within(lp, w):
                 ob.fail(gen, lp, "the source is iterated outside the stream's scope: its completion fires before the stream ended / metrics land elsewhere")
         cm = w.items[0].context_expr
-        oo = dg.origins(cm)
+        oo = gen_origins(cm)
         if not any("ctx.scope" in o for o in oo):
             ob.fail(gen, w, "the scope entered is not the nested scope prepared when the stream was created")
     body = [s for s in gen.node.body if not (isinstance(s, ast.Expr) and isinstance(s.value, ast.Constant))]
@@ -166,7 +194,7 @@ def check(an: Analysis) -> None:
     for c in snaps + scopes:
         ob.inst(stream, c)
     for c in scopes:
-        a = unwrap(c.args[0]) if c.args else None
+        a = unwrap(d.inline(c.args[0])) if c.args else None
         ok = isinstance(a, ast.Call) and is_name(a.func, "getattr") and len(a.args) == 3 and is_name(a.args[0], src_param) and isinstance(a.args[1], ast.Constant) and a.args[1].value == "__name__"
         if not ok:
             ob.fail(stream, c, "the stream scope is not named after the source generator")
@@ -175,6 +203,10 @@ def check(an: Analysis) -> None:
         ob.inst(stream, r)
         v = unwrap(r.value)
         ok = isinstance(v, ast.Call) and ((v in runs and v.args and is_name(v.args[0], gen.name)) or is_name(v.func, gen.name))
+        if ok and not nested_gen:
+            # the varargs of ctx.stream must be forwarded to the module-level generator
+            star = [a_ for a_ in v.args if isinstance(a_, ast.Starred)]
+            ok = len(star) == 1 and is_name(star[0].value, va or "") and any(k.arg is None and is_name(k.value, kwa or "") for k in v.keywords)
         if not ok:
             ob.fail(stream, r, "ctx.stream does not return the wrapping generator")
     if not rets:
